@@ -206,6 +206,42 @@ static void crafted_caf (void)
 	free (b.p) ;
 }
 
+/* files that fill the library's fixed-size tables past their capacity: 40 strings (table of 32), 20 sampler loops (16), 110 cue points
+** (growth past 100), 120 AIFF markers - everything else about them is plain */
+static void crafted_capacity (void)
+{	Bld b = { 0 }, c = { 0 } ; Seed *s ; static const unsigned char rate80 [10] = { 0x40, 0x0B, 0xFA, 0, 0, 0, 0, 0, 0, 0 } ;
+	static const char *ids [] = { "INAM", "IART", "ICMT", "ICOP", "ICRD", "ISFT", "IGNR", "ITRK", "IPRD" } ; static const char *aids [] = { "NAME", "AUTH", "ANNO", "(c) " } ;
+	/* WAV */
+	b_str (&b, "RIFF") ; b_le32 (&b, 0) ; b_str (&b, "WAVE") ;
+	c.n = 0 ; b_le16 (&c, 1) ; b_le16 (&c, 1) ; b_le32 (&c, 8000) ; b_le32 (&c, 16000) ; b_le16 (&c, 2) ; b_le16 (&c, 16) ; b_chunk (&b, 0, "fmt ", c.p, c.n) ;
+	c.n = 0 ; b_str (&c, "INFO") ; for (int k = 0 ; k < 40 ; k++) { char v [8] ; snprintf (v, sizeof (v), "val%02d", k) ; b_str (&c, ids [k % 9]) ; b_le32 (&c, 6) ; b_str (&c, v) ; b_u8 (&c, 0) ; } b_chunk (&b, 0, "LIST", c.p, c.n) ;
+	c.n = 0 ; b_le32 (&c, 0) ; b_le32 (&c, 0) ; b_le32 (&c, 125000) ; b_le32 (&c, 60) ; b_le32 (&c, 0) ; b_le32 (&c, 0) ; b_le32 (&c, 0) ; b_le32 (&c, 20) ; b_le32 (&c, 0) ;
+		for (int k = 0 ; k < 20 ; k++) { b_le32 (&c, k) ; b_le32 (&c, k % 3) ; b_le32 (&c, k) ; b_le32 (&c, k + 4) ; b_le32 (&c, 0) ; b_le32 (&c, k) ; } b_chunk (&b, 0, "smpl", c.p, c.n) ;
+	c.n = 0 ; b_le32 (&c, 110) ; for (int k = 1 ; k <= 110 ; k++) { b_le32 (&c, k) ; b_le32 (&c, k % 12) ; b_str (&c, "data") ; b_le32 (&c, 0) ; b_le32 (&c, 0) ; b_le32 (&c, k % 12) ; } b_chunk (&b, 0, "cue ", c.p, c.n) ;
+	c.n = 0 ; for (int k = 0 ; k < 12 ; k++) b_le16 (&c, (k * 1000) & 0xffff) ; b_chunk (&b, 0, "data", c.p, c.n) ;
+	b_fix32 (&b, 4, 0, (uint32_t) b.n - 8) ;
+	s = add_seed ("crafted:wav-full-tables", "wav", b.p, b.n, b.n) ; if (s) s->chunk_kind = 1 ;
+	/* AIFF */
+	b.n = 0 ; b_str (&b, "FORM") ; b_be32 (&b, 0) ; b_str (&b, "AIFF") ;
+	c.n = 0 ; b_be16 (&c, 1) ; b_be32 (&c, 12) ; b_be16 (&c, 16) ; b_put (&c, rate80, 10) ; b_chunk (&b, 1, "COMM", c.p, c.n) ;
+	for (int k = 0 ; k < 40 ; k++) { char v [8] ; snprintf (v, sizeof (v), "val%02d", k) ; b_chunk (&b, 1, aids [k % 4], v, 5) ; }
+	c.n = 0 ; b_be16 (&c, 120) ; for (int k = 1 ; k <= 120 ; k++) { b_be16 (&c, k) ; b_be32 (&c, k % 12) ; b_u8 (&c, 3) ; b_str (&c, "mrk") ; } b_chunk (&b, 1, "MARK", c.p, c.n) ;
+	c.n = 0 ; b_be32 (&c, 0) ; b_be32 (&c, 0) ; for (int k = 0 ; k < 12 ; k++) b_be16 (&c, (k * 1000) & 0xffff) ; b_chunk (&b, 1, "SSND", c.p, c.n) ;
+	b_fix32 (&b, 4, 1, (uint32_t) b.n - 8) ;
+	s = add_seed ("crafted:aiff-full-tables", "aiff", b.p, b.n, b.n) ; if (s) s->chunk_kind = 2 ;
+	/* CAF */
+	{	double rate = 8000.0 ; unsigned char r8 [8] ; static const char *keys [] = { "title", "artist", "album", "comments", "copyright", "genre", "year", "tracknumber", "recorded date", "encoding application" } ;
+		memcpy (r8, &rate, 8) ; for (int k = 0 ; k < 4 ; k++) { unsigned char t = r8 [k] ; r8 [k] = r8 [7 - k] ; r8 [7 - k] = t ; }
+		b.n = 0 ; b_str (&b, "caff") ; b_be16 (&b, 1) ; b_be16 (&b, 0) ;
+		b_str (&b, "desc") ; b_be64 (&b, 32) ; b_put (&b, r8, 8) ; b_str (&b, "lpcm") ; b_be32 (&b, 0) ; b_be32 (&b, 2) ; b_be32 (&b, 1) ; b_be32 (&b, 1) ; b_be32 (&b, 16) ;
+		c.n = 0 ; b_be32 (&c, 40) ; for (int k = 0 ; k < 40 ; k++) { char v [8] ; snprintf (v, sizeof (v), "val%02d", k) ; b_str (&c, keys [k % 10]) ; b_u8 (&c, 0) ; b_str (&c, v) ; b_u8 (&c, 0) ; }
+		b_str (&b, "info") ; b_be64 (&b, c.n) ; b_put (&b, c.p, c.n) ;
+		b_str (&b, "data") ; b_be64 (&b, 4 + 24) ; b_be32 (&b, 0) ; for (int k = 0 ; k < 12 ; k++) b_be16 (&b, (k * 1000) & 0xffff) ;
+		s = add_seed ("crafted:caf-full-tables", "caf", b.p, b.n, b.n) ; if (s) { s->chunk_kind = 3 ; s->wide = 1 ; }
+		}
+	free (b.p) ; free (c.p) ;
+}
+
 void hc_build_seeds (void)
 {	if (! dev_ready) { md_init (&dev) ; dev_ready = 1 ; }
 	nseeds = 0 ;
@@ -216,7 +252,7 @@ void hc_build_seeds (void)
 	{	static const char *rich [] = { "wav/pcm_16/file", "wav/float/file", "wavex/pcm_24/file", "rf64/pcm_16/file", "aiff/pcm_16/file", "aiff/float/file", "caf/pcm_16/file", "caf/float/file", "caf/alac_16/file", "w64/pcm_16/file", NULL } ;
 		for (int k = 0 ; rich [k] ; k++) { const Fmt *f = fmt_by_name (rich [k]) ; if (f) library_seed (f, 2, 1) ; }
 		}
-	crafted_wav () ; crafted_aiff () ; crafted_svx_voc () ; crafted_caf () ;
+	crafted_wav () ; crafted_aiff () ; crafted_svx_voc () ; crafted_caf () ; crafted_capacity () ;
 	if (vl_opts.thorough)
 		for (int i = 0 ; i < fmt_count ; i++)
 		{	const Fmt *f = &fmt_list [i] ;
